@@ -79,9 +79,64 @@ fn top_key(path: &str, exp: &Value) -> String {
     }
 }
 
+fn filtered(ev: &Value) -> bool {
+    ev.get("ver").and_then(|x| x.as_u64()).map(|x| x != 2).unwrap_or(false)
+        || ev.get("dom").and_then(|x| x.as_u64()).map(|x| x != 0).unwrap_or(false)
+        || ev.get("sdo").and_then(|x| x.as_u64()).map(|x| x != 0).unwrap_or(false)
+        || ev.get("bad").and_then(|x| x.as_bool()).unwrap_or(false)
+        || ev.get("cut").is_some()
+}
+
+/// C06 as an observable predicate: a slave port's parent must have been heard at least twice, with distinct
+/// sequence ids, within the last four completed announce intervals (BMCA epochs) plus the current one, never
+/// with stepsRemoved >= 255 and never with the own clock identity.
+fn c06_predicates(cfg: &Cfg, events: &[Value], act: &Value, v: &mut Vec<(String, String)>) {
+    let pst: Vec<&str> = act["pst"].as_array().map(|a| a.iter().map(|x| x.as_str().unwrap_or("?")).collect()).unwrap_or_default();
+    let epoch_now = events.iter().filter(|e| e["e"] == "bmca").count() as i64;
+    for (i, s) in pst.iter().enumerate() {
+        if *s != "S" {
+            continue;
+        }
+        let ppi = &act["ppi"];
+        if ppi[0].as_u64() == Some(cfg.own.id as u64) {
+            v.push(("C06/own".into(), format!("port {} is slave of a port of its own instance", i + 1)));
+            continue;
+        }
+        let mut epoch = 0i64;
+        let mut seqs: Vec<u64> = vec![];
+        let mut all = 0;
+        let mut bad_steps = false;
+        for e in events {
+            if e["e"] == "bmca" {
+                epoch += 1;
+            }
+            if e["e"] == "ann" && e["p"].as_u64() == Some(i as u64 + 1) && &e["src"] == ppi && !filtered(e) && epoch >= epoch_now - 4 {
+                all += 1;
+                let q = e["seq"].as_u64().unwrap_or(0);
+                if !seqs.contains(&q) {
+                    seqs.push(q);
+                }
+                if e["steps"].as_u64().unwrap_or(0) >= 255 {
+                    bad_steps = true;
+                }
+            }
+        }
+        if all < 2 {
+            v.push(("C06/single".into(), format!("port {} is slave of {} after {} Announce(s) of it within the window", i + 1, ppi, all)));
+        } else if seqs.len() < 2 {
+            v.push(("C06/dup".into(), format!("port {} is slave of {} on the strength of one Announce delivered {} times (duplicate sequenceId)", i + 1, ppi, all)));
+        }
+        if bad_steps && seqs.len() <= 2 {
+            v.push(("C06/steps255".into(), format!("port {} is slave of {} which reports stepsRemoved >= 255", i + 1, ppi)));
+        }
+    }
+}
+
 /// Observable predicates: statements of the properties over π alone
-fn predicates(cfg: &Cfg, ev: &Value, pre: &Value, act: &Value, so_from_start: bool) -> Vec<(String, String)> {
+fn predicates(cfg: &Cfg, events: &[Value], pre: &Value, act: &Value, so_from_start: bool) -> Vec<(String, String)> {
     let mut v = vec![];
+    let ev = events.last().unwrap();
+    c06_predicates(cfg, events, act, &mut v);
     let pst: Vec<&str> = act["pst"].as_array().map(|a| a.iter().map(|x| x.as_str().unwrap_or("?")).collect()).unwrap_or_default();
     let pre_pst: Vec<&str> = pre["pst"].as_array().map(|a| a.iter().map(|x| x.as_str().unwrap_or("?")).collect()).unwrap_or_default();
     // C08 at most one slave port; master-only never slave; slave-only never master
@@ -229,7 +284,7 @@ pub fn run_edge(base_cfg: &Value, seed: u64, hist: &[Value], exp: &Value) -> Out
         mismatch = mismatch.or_else(|| subset_match(&w.vals, exp, &act, ""));
     }
     let preds = match events.last() {
-        Some(ev) => predicates(&cfg, ev, &pre, &act, cfg.so && !events.iter().any(|e| e["e"] == "so")),
+        Some(_) => predicates(&cfg, events, &pre, &act, cfg.so && !events.iter().any(|e| e["e"] == "so")),
         None => vec![],
     };
     Outcome {
